@@ -3,6 +3,7 @@
 cd "$(dirname "$0")"
 sed -e 's#joeqian10/neo3-gogogo/#joeqian10/neo3-gogogo-legacy/#' \
     -e 's#header_sync/neo3"#header_sync/neo3legacy"#' \
+    -e 's#cross_chain_manager/neo3"#cross_chain_manager/neo3legacy"#; s/ccmneo3/ccmneo3l/g' \
     -e 's/neo3\./neo3legacy./g' \
     -e 's/n3Fam/n3lFam/g; s/n3Keys/n3lKeys/g; s/n3Script/n3lScript/g; s/n3Invocation/n3lInvocation/g; s/n3ErrClass/n3lErrClass/g; s/n3DistinctValid/n3lDistinctValid/g; s/n3ChainID/n3lChainID/g; s/n3Magic/n3lMagic/g' \
     -e 's/"neo3msg"/"neo3lmsg"/; s/"neo3hdr"/"neo3lhdr"/; s/neo3msg-%d/neo3lmsg-%d/; s/C24:neo3-msg/C24:neo3legacy-msg/; s/C31:neo3/C31:neo3legacy/g; s/polyverif-neo3-key/polyverif-neo3l-key/' \
